@@ -65,6 +65,7 @@ type wRow struct {
 	SD    string           `parquet:"sd,dict"`
 	Bytes []byte           `parquet:"bytes"`
 	U     [16]byte         `parquet:"u,uuid"`
+	F5    [5]byte          `parquet:"f5,dict"`
 	OptI  *int64           `parquet:"opti"`
 	OptS  *string          `parquet:"opts,dict"`
 	OptF  float64          `parquet:"optf,optional"`
@@ -109,9 +110,14 @@ func wRowOf(id int, seed uint64) wRow {
 	if r.intn(3) > 0 {
 		row.Bytes = []byte(pick(r, wStrs))
 	}
-	for i := range row.U {
-		row.U[i] = byte(r.next())
+	if r.intn(2) == 0 {
+		for i := range row.U {
+			row.U[i] = byte(r.next())
+		}
+	} else { // few distinct values: repeated across pages and row groups (dictionary-friendly)
+		row.U = [16]byte{byte(r.intn(3)), 1, 2, 3, 4, 5, 6, 7, 8, 9, 10, 11, 12, 13, 14, 0xFF}
 	}
+	row.F5 = [5]byte{byte('A' + r.intn(4)), 'x', 0, 0xFF, byte(r.intn(2))}
 	if r.intn(3) > 0 {
 		x := pick(r, wI64s)
 		row.OptI = &x
@@ -166,7 +172,7 @@ func wSame(a, b wRow) int {
 	checks := []bool{
 		a.ID == b.ID, a.B == b.B, a.I32 == b.I32, a.U32 == b.U32, a.I64 == b.I64, a.U64 == b.U64,
 		math.Float32bits(a.F32) == math.Float32bits(b.F32), f64(a.F64, b.F64),
-		a.S == b.S, a.SD == b.SD, bytes.Equal(a.Bytes, b.Bytes), a.U == b.U,
+		a.S == b.S, a.SD == b.SD, bytes.Equal(a.Bytes, b.Bytes), a.U == b.U && a.F5 == b.F5,
 		(a.OptI == nil) == (b.OptI == nil) && (a.OptI == nil || *a.OptI == *b.OptI),
 		(a.OptS == nil) == (b.OptS == nil) && (a.OptS == nil || *a.OptS == *b.OptS),
 		f64(a.OptF, b.OptF),
